@@ -534,6 +534,7 @@ func returnsGuardValue(h *ssa.Function, g ir.Guard) bool {
 // `ok, err := forward(...)` with `func forward(...) (bool, error) { return inner(...) }`:
 // the edge `ok == true` of the caller is a pass edge of "inner(...) == true".
 func PassEdgesThrough(fn *ssa.Function, g ir.Guard) []ir.Edge {
+	g = ir.AllForms(g)
 	out := ir.PassEdges(fn, g)
 	for _, b := range fn.Blocks {
 		for _, in := range b.Instrs {
